@@ -72,7 +72,7 @@ pub(super) fn render_debug_info(
                     f,
                     "     i {}{} {}",
                     " ".repeat(span.start_col as usize),
-                    "^".repeat(span.end_col as usize - span.start_col as usize),
+                    "^".repeat((span.end_col as usize).saturating_sub(span.start_col as usize)),
                     kind,
                 ));
             }
